@@ -1,13 +1,14 @@
 #!/bin/bash
-# seedtest.sh <patch.diff> <prop> [<prop>...]: applies a seeded change to /repo, runs the
-# quick checks of the given properties, and restores /repo. Prints one line per property.
-patch=$1; shift
-cd /repo || exit 3
-if ! git diff --quiet; then echo "/repo is dirty"; exit 3; fi
-git apply "$patch" || { echo "patch does not apply"; exit 3; }
+# seedtest.sh <patch.diff> <prop> [<prop>...]: applies a seeded change to a scratch worktree of /repo
+# (never to /repo itself), runs the checks of the given properties against it (VERIF_REPO), removes the
+# worktree. Prints one line per property. TIER=thorough for the thorough tier.
+patch=$(readlink -f "$1"); shift
+wt=/tmp/seedtest_repo_$$
+git -C /repo worktree add -q --detach $wt HEAD || exit 3
+( cd $wt && git apply "$patch" ) || { echo "patch does not apply"; git -C /repo worktree remove --force $wt; exit 3; }
 for p in "$@"; do
-  out=$(cd /verif && ./check $p --tier ${TIER:-quick} 2>/dev/null); rc=$?
+  out=$(cd /verif && VERIF_REPO=$wt ./check $p --tier ${TIER:-quick} 2>/dev/null); rc=$?
   echo "$p rc=$rc $(echo "$out" | grep -c '^VIOLATION') violation line(s); first: $(echo "$out" | grep -A1 '^VIOLATION' | head -2 | tr '\n' ' ' | cut -c1-300)"
   [ $rc -eq 2 ] && echo "$out" | grep '^INCONCLUSIVE' | head -3
 done
-git -C /repo checkout -- .
+git -C /repo worktree remove --force $wt
